@@ -62,7 +62,7 @@ BASE_SRC = {
     # one statement of (nearly) every primary rule kind, conforming or not: typedef / enum blocks in a .c file, global, casts,
     # ternaries, for, do-while, switch/case, goto + label, calls, expression statements
     "zoo.c": '#include <stdlib.h>\n\ntypedef struct s_node\n{\n\tint\t\t\t\tval;\n\tstruct s_node\t*next;\n}\tt_node;\n\nenum e_col\n{\n\tRED,\n\tBLUE\n};\n\nstatic int\tg_cnt = 0;\n\nint\tzoo(int a, char *s)\n{\n\tt_node\t\t*n;\n\tenum e_col\tc;\n\tint\t\t\ti;\n\n\tn = (t_node *)malloc(sizeof(t_node));\n\tc = RED;\n\t(void)s;\n\ti = a ? 1 : 2;\n\tfor (i = 0; i < a; i++)\n\t\tg_cnt += i;\n\tdo\n\t{\n\t\ti--;\n\t} while (i > 0);\n\tswitch (a)\n\t{\n\t\tcase 1:\n\t\t\tbreak ;\n\t\tdefault:\n\t\t\ti = 3;\n\t}\n\tgoto end;\nend:\n\tfree(n);\n\treturn (c == RED ? i : a);\n}\n',
-    "pp.c": "#if defined(A) && (B > 2)\n# define C 1\n#else\n# define C 0\n#endif\n\nint\tmain(void)\n{\n\treturn (C);\n}\n",
+    "pp.c": "#if defined(A) && (B > 2)\n# define C 1\n#elif VERSION_AT_LEAST(2, 7)\n# define C 2\n#else\n# define C 0\n#endif\n\nint\tmain(void)\n{\n\treturn (C);\n}\n",
 }
 
 
